@@ -258,6 +258,16 @@ func (c18) Exec(sc *sim.Scenario, env *sim.Env) *sim.Violation {
 		if sched.Viol != nil && strings.HasPrefix(sched.Viol.Oracle, "HARNESS_") {
 			return sched.Viol
 		}
+		if sched.Deadlocked {
+			if sc.Sched == nil {
+				sc.Sched = append([]sim.Switch{}, sched.Recorded...)
+				if sc.Sched == nil {
+					sc.Sched = []sim.Switch{}
+				}
+				sc.Cfg["nsched"] = 1
+			}
+			return sched.Viol
+		}
 		if sched.Aborted {
 			st.Abort("yield_budget_exhausted")
 			continue
